@@ -130,16 +130,16 @@ type runState struct {
 	done   chan error
 	pivot  int
 	// every state root the flat state may legitimately have been taken from
-	legit   []common.Hash
-	moved   bool
-	markerHit string
-	viol    *simcore.Violation
-	opsDone int
-	complete bool
-	stopAt  time.Duration // virtual instant at which faults stopped
+	legit                    []common.Hash
+	moved                    bool
+	markerHit                string
+	viol                     *simcore.Violation
+	opsDone                  int
+	complete                 bool
+	stopAt                   time.Duration // virtual instant at which faults stopped
 	cycleErrs, errsAfterStop int
-	powerLoss bool
-	outcome simcore.Hash64
+	powerLoss                bool
+	outcome                  simcore.Hash64
 }
 
 func (rs *runState) fail(v *simcore.Violation) {
@@ -349,9 +349,9 @@ const (
 
 func (rs *runState) loop() {
 	var (
-		n       = rs.net
-		errc    = make(chan delivery, 64)
-		budget  = 0 // message budget after the faults stopped, set then
+		n      = rs.net
+		errc   = make(chan delivery, 64)
+		budget = 0 // message budget after the faults stopped, set then
 	)
 	for {
 		synctest.Wait()
